@@ -59,7 +59,7 @@ def family(rng, name, qscale):
 
 
 def gen_cases(tier, seed):
-    n = 60 if tier == "quick" else 1500
+    n = 240 if tier == "quick" else 1500
     cases = []
     geoms = ["pinhole", "slit(L,0)", "slit(0,W)", "pinhole", "slit(L,0)", "slit(0,W)", "slit(L,W)", "2d", "pinhole", "2d"]
     for k in range(n):
